@@ -149,90 +149,42 @@ def r2(F, R):
 
 def r3(F, R):
     rs, root, tree = roles.attempt_tree(F)
-    b_step, fo = c02.run_step_body(F, tree)
-    # inner run block: step fn receives &mut world where world = world_opt or the created one; Ok result carries that world
-    inner = [nb for nb in roles.family(F, b_step) if nb is not b_step and nb.is_coroutine and any(callee_is(t, r"Collection::<.*>::find$") for _, t in nb.calls())]
-    if len(inner) != 1:
-        raise Unverifiable("run_step inner block")
-    ib = inner[0]
-    stepco = [b for b, s, t, k in user_callback_sites(F) if k == "step-fn"]
-    if len(stepco) != 1:
-        raise Unverifiable("step fn call site")
-    cc = A.closure_creation(F, stepco[0])
-    P, cs, st = cc
-    # upvar 1.. : the world reference captured
-    ups = st["rv"]["ops"]
-    wl = None
-    for op in ups:
-        pl = op_place(op)
-        if pl is not None:
-            cp = A.canon_place(P, pl)
-            if P.locals[cp["l"]] == "W" or P.locals[cp["l"]] == "&mut W":
-                sd = P.single_def(cp["l"])
-                if P.locals[cp["l"]] == "&mut W" and sd and sd[1] == "assign" and sd[2]["rv"]["k"] == "ref":
-                    wl = sd[2]["rv"]["pl"]["l"]
-                elif P.locals[cp["l"]] == "W":
-                    wl = cp["l"]
-    R.check(wl is not None, "step/gets-attempt-world", cs, "the step fn borrows the attempt's World", "the step fn does not receive the attempt's World")
-    if wl is not None:
-        # definitions of that world local: world_opt's payload or the freshly created one
-        ds = P.defs.get(wl, [])
-        kinds = []
-        for s, k, p in ds:
-            if k == "assign" and p["rv"]["k"] == "use":
-                src = A.canon_place(P, op_place(p["rv"]["op"])) if op_place(p["rv"]["op"]) else None
-                if src is not None:
-                    ty = P.locals[src["l"]]
-                    fl = [e for e in src["p"] if isinstance(e, dict) and "f" in e]
-                    if any(e["t"] == "std::option::Option<W>" for e in fl) or ty == "std::option::Option<W>":
-                        kinds.append("threaded")
-                    elif "Poll" in ty or "Result" in ty:
-                        kinds.append("created")
-                    else:
-                        kinds.append(ty[:30])
-        R.check(sorted(kinds) == ["created", "threaded"], "step/world-is-threaded-or-created", Site(P, ds[0][0].bb, "T") if ds else cs, "world = world_opt or the one just created",
-                f"the World handed to the step comes from {kinds}")
-        # Ok result carries Some(world)
-        oks = [(s, stt) for s, stt in P.assigns(lambda stt: stt["pl"]["l"] == 0 and stt["rv"]["k"] == "agg" and stt["rv"].get("variant") == "Ok")]
-        carried = False
-        for s, stt in oks:
-            sl = A.slice_back(P, stt["rv"]["ops"], stop_calls=[r"Future::poll$"])
-            if wl in sl.locals and any(rv.get("variant") == "Some" for _, rv in sl.aggs):
-                carried = True
-        R.check(carried, "step/returns-same-world", P, "Ok((.., Some(world))) returns the World the step ran on", "run_step does not return the World the step ran on")
-    # every outcome of the step's inner block hands the World on: the tuple's World component derives from the threaded World
-    # (or the one just created); a literal `None` is allowed only on paths where no World exists (world_opt is None)
-    rets = [(s, stt) for s, stt in P.assigns(lambda stt: stt["pl"]["l"] == 0 and not stt["pl"]["p"] and stt["rv"]["k"] == "agg" and stt["rv"].get("adt") == "std::result::Result")]
-    n_ret = 0
-    for s, stt in rets:
-        tl = op_local(stt["rv"]["ops"][0])
-        tsd = P.single_def(tl) if tl is not None else None
-        if not (tsd and tsd[1] == "assign" and tsd[2]["rv"]["k"] == "agg" and tsd[2]["rv"].get("agg") == "tuple"):
-            continue
-        wop = tsd[2]["rv"]["ops"][-1]
-        wl2 = op_local(wop)
-        if wl2 is None or not P.locals[wl2].startswith("std::option::Option<W>"):
-            continue
-        n_ret += 1
-        wsd = P.single_def(wl2)
-        is_none_lit = bool(wsd and wsd[1] == "assign" and wsd[2]["rv"]["k"] == "agg" and wsd[2]["rv"].get("variant") == "None")
-        kind = stt["rv"]["variant"]
-        if is_none_lit:
-            no_world = False
-            for g in A.guards_of(P, s):
-                d = g.cond_def()
-                if d and d[0] == "discr" and g.variants() == {"None"}:
-                    fl = [e for e in A.canon_place(P, d[1])["p"] if isinstance(e, dict) and "f" in e]
-                    pty = fl[-1]["t"] if fl else P.locals[A.canon_place(P, d[1])["l"]]
-                    if pty == "std::option::Option<W>":
-                        no_world = True
-            R.check(no_world, f"step/outcome-keeps-world/{kind}@{_ret_idx(rets, s)}", s, "World component is None only where no World exists",
-                    f"an outcome ({kind}) of the step drops the attempt's World (returns None although a World may exist): the after hook and later events lose it")
-        else:
-            wsl = A.slice_back(P, [wop], stop_calls=[r"Future::poll$"])
-            from_world = (wl in wsl.locals) or bool(wsl.upvars)
-            R.check(from_world, f"step/outcome-keeps-world/{kind}@{_ret_idx(rets, s)}", s, "World component is the attempt's World", "an outcome of the step carries a World that is not the attempt's")
-    R.check(n_ret >= 5, "step/outcomes-found", P, f"{n_ret} outcome tuples", f"only {n_ret} outcome tuples found in the step block")
+    # the step routine's path table (attempt.StepTable, whole routine): which World the step fn gets and what every outcome hands on
+    from . import attempt as AT
+    from . import deep as D
+    T = AT.StepTable(F)
+    P = T.body
+    n_call = n_out = 0
+    kinds = set()
+    for r in T.rows:
+        p = r["p"]
+        threaded = ("field", ("as", r["world_opt_term"], "Some"), 0) if r.get("world_opt_term") is not None else None
+        created = ("field", ("as", r["world_term"], "Ok"), 0) if r.get("world_term") is not None else None
+        have = threaded if r["world_opt"] == "Some" else created if (r["world_new"] and r.get("world_err") is False and "world" not in r["panic_src"]) else None
+        if r["step_call"]:
+            n_call += 1
+            e = p.effects[r["step_call"][0]]
+            got_t = threaded is not None and any(D.mentions(a, lambda x: x == threaded) for a in e[2])
+            got_c = created is not None and any(D.mentions(a, lambda x: x == created) for a in e[2])
+            kinds.add("threaded" if got_t else "created" if got_c else "?")
+            R.check((got_t and r["world_opt"] == "Some") or (got_c and r["world_opt"] == "None" and not got_t), "step/gets-attempt-world", P, "the step fn borrows the attempt's World",
+                    "the step fn does not receive the attempt's World (the threaded one if there is one, else the one just created)")
+            if r["outcome"] == "passed":
+                want = threaded if got_t else created
+                R.check(r["world_out"] == want, "step/returns-same-world", P, "Ok(world) returns the World the step ran on", "run_step does not return the World the step ran on")
+        if r["outcome"] in ("failed", "skipped"):
+            n_out += 1
+            wo = r["world_out"]
+            cond = f"{r['outcome']}/find={r['find']}/found={r['found']}/world={r['world_opt']}" + ("/created" if have is created and created is not None else "")
+            if have is not None:
+                ok = wo is not None and (wo == r.get("world_opt_term") or (D.is_variant(wo, "std::option::Option", "Some") and wo[3][0] == have))
+                R.check(ok, f"step/outcome-keeps-world/{cond}", P, "the outcome carries the attempt's World",
+                        f"an outcome ({r['outcome']}) of the step drops the attempt's World (hands on {D.fmt(P, wo)[:40] if wo else 'nothing'} although a World exists): the after hook and later events lose it")
+            else:
+                ok = wo is not None and (wo == r.get("world_opt_term") or D.is_variant(wo, "std::option::Option", "None"))
+                R.check(ok, f"step/outcome-keeps-world/{cond}", P, "no World exists: None is handed on", f"an outcome ({r['outcome']}) hands on a World ({D.fmt(P, wo)[:40] if wo else '?'}) on a path where none exists")
+    R.check(kinds == {"created", "threaded"}, "step/world-is-threaded-or-created", P, "world = world_opt or the one just created", f"the World handed to the step comes from {sorted(kinds)}")
+    R.check(n_out >= 5 and n_call >= 2, "step/outcomes-found", P, f"{n_out} failure / skip outcomes, {n_call} rows calling the step", f"only {n_out} outcomes / {n_call} step calls found in the step routine's table")
     # take_world: all arms take the stored world
     tw = [b for b in F.crate_bodies() if (b.impl or {}).get("self_adt") == "runner::basic::ExecutionFailure" and b.locals[0] == "std::option::Option<W>"]
     R.check(len(tw) == 1, "take-world/found", None, "", f"{len(tw)} candidates")
